@@ -34,6 +34,10 @@ STUBS = """
         ensures res is Ok ==> final(self).conds@ == old(self).conds@ + 1, final(self).nots == old(self).nots, final(self).visits == old(self).visits, final(self).purges == old(self).purges,
     { unimplemented!() }
     #[verifier::external_body]
+    pub(crate) fn generate_ternary(&mut self, condition: &Expr, alternatives: &Expr, pos: usize) -> (res: Result<ExprType, Error>)      // evaluates its condition: counted in `conds`
+        ensures res is Ok ==> final(self).conds@ == old(self).conds@ + 1, final(self).nots == old(self).nots, final(self).visits == old(self).visits, final(self).purges == old(self).purges,
+    { unimplemented!() }
+    #[verifier::external_body]
     fn generate_not(&mut self, expr: &Expr, pos: usize) -> (res: Result<ExprType, Error>)
         ensures res is Ok ==> final(self).nots@ == old(self).nots@ + 1, final(self).conds == old(self).conds, final(self).visits == old(self).visits, final(self).purges == old(self).purges,
     { unimplemented!() }
@@ -64,6 +68,14 @@ FNS = """
     {
         %(not)s
     }
+    // R8: the `?:` arm of generate_expr, verbatim
+    fn arm_ternary(&mut self, lhs: &Box<Expr>, rhs: &Box<Expr>, pos: usize, high_byte: bool) -> (res: Result<ExprType, Error>)
+        ensures (res is Ok && !high_byte) ==> final(self).conds@ == old(self).conds@ + 1, //@ C01:conditional-evaluated-in-the-low-byte-pass
+            (res is Ok && high_byte) ==> final(self).conds@ == old(self).conds@ && final(self).visits@ == old(self).visits@, //@ C01,C18:conditional-not-evaluated-again-for-the-high-byte
+            (res is Ok && high_byte) ==> res->Ok_0 == ExprType::Immediate(0), //@ C01:high-byte-of-a-conditional-built-in-the-accumulator-is-zero
+    {
+        %(tern)s
+    }
     // R8: the comma arm of generate_expr, verbatim
     fn arm_comma(&mut self, lhs: &Box<Expr>, rhs: &Box<Expr>, pos: usize, high_byte: bool, second_time: bool) -> (res: Result<ExprType, Error>)
         ensures
@@ -86,6 +98,9 @@ def candidates(f):
         prog("short s; unsigned char a, b;", "s = 0x5555; s = a < b;", {"init": {"a": a, "b": b}, "expect16": {"s": int(a < b)}}, "s = a < b, a=%d b=%d" % (a, b))
         prog("short s; unsigned char a, b;", "s = 0x5555; s = a && b;", {"init": {"a": a - 1, "b": b - 1}, "expect16": {"s": int(bool(a - 1) and bool(b - 1))}}, "s = a && b")
         prog("short s; unsigned char a;", "s = 0x5555; s = !a;", {"init": {"a": a - 1}, "expect16": {"s": int(not (a - 1))}}, "s = !a, a=%d" % (a - 1))
+    for c in (0, 1):
+        prog("short s; unsigned char c;", "s = 0x5555; s = c ? 1 : 2;", {"init": {"c": c}, "expect16": {"s": 1 if c else 2}}, "s = c ? 1 : 2, c=%d" % c)
+    prog("short s; unsigned char c, n; unsigned char f() { n++; return 7; }", "n = 0; s = c ? f() : 2;", {"init": {"c": 1}, "expect": {"n": 1}, "expect16": {"s": 7}}, "s = c ? f() : 2: f called once")
     prog("short s, t; unsigned char a;", "s = (a++, t);", {"init": {"a": 5, "t": 7, "t+1": 2}, "expect": {"a": 6}, "expect16": {"s": 0x207}}, "s = (a++, t): a incremented once")
     prog("short s, t; unsigned char n; unsigned char f() { n++; return 1; }", "n = 0; s = (f(), t);", {"init": {"t": 7, "t+1": 2}, "expect": {"n": 1}, "expect16": {"s": 0x207}}, "s = (f(), t): f called once")
     return out
@@ -124,10 +139,12 @@ def build(repo):
     cmp_ = cut_arm(gs, span, r"\|\s*Operation::Land\s*\|\s*Operation::Lor\s*=>\s*", "generate_expr(): the Eq / Neq / Gt / Gte / Lt / Lte / Land / Lor arm (R8)")
     not_ = cut_arm(gs, span, r"Expr::Not\(v\)\s*=>\s*", "generate_expr(): the Expr::Not arm (R8)")
     comma = cut_arm(gs, span, r"Operation::Comma\s*=>\s*", "generate_expr(): the Operation::Comma arm (R8)")
+    tern = cut_arm(gs, span, r"Operation::TernaryCond1\s*=>\s*", "generate_expr(): the Operation::TernaryCond1 arm (R8)")
+    tern.sub(r"\A\s*Operation::TernaryCond1\s*=>\s*", "", "R8 the arm's pattern", expect=(0, 1), flags=0)
     cmp_.sub(r"\A\s*\|\s*Operation::Lor\s*=>\s*", "", "R8 the arm's pattern", expect=(0, 1), flags=0)
     not_.sub(r"\A\s*Expr::Not\(v\)\s*=>\s*", "", "R8 the arm's pattern (its binding is the window's parameter)", expect=(0, 1), flags=0)
     comma.sub(r"\A\s*Operation::Comma\s*=>\s*", "", "R8 the arm's pattern", expect=(0, 1), flags=0)
-    cuts, tys = [cmp_, not_, comma], []
+    cuts, tys = [cmp_, not_, comma, tern], []
     for sf, kind, name, structural in ((comp, "enum", "Operation", True), (comp, "enum", "VariableType", True), (gm, "enum", "ExprType", False), (comp, "enum", "Expr", False)):
         c = sf.item(kind, name)
         common.r2(c, structural=structural)
@@ -137,7 +154,7 @@ def build(repo):
         cuts.append(c)
         tys.append(c.text)
     text = common.PRELUDE + common.header_comment(NAME, cuts) + "verus! {\n" + (SPECS % {"types": "\n".join(tys)}) + \
-        "impl<'a> GeneratorState<'a> {\n" + STUBS + (FNS % {"cmp": cmp_.text, "not": not_.text, "comma": comma.text}) + "\n}\n" + common.CANARY + "\n} // verus!\n"
+        "impl<'a> GeneratorState<'a> {\n" + STUBS + (FNS % {"cmp": cmp_.text, "not": not_.text, "comma": comma.text, "tern": tern.text}) + "\n}\n" + common.CANARY + "\n} // verus!\n"
     u.text[None] = text
     u.rewrites = common.collect_rewrites(cuts)
     u.dropped = ["R6 shim environment", "the other arms of generate_expr"]
